@@ -21,9 +21,11 @@ def main():
     prop = a.prop.upper()
     try:
         mod = importlib.import_module('vt.props.' + prop.lower())
-    except ImportError:
+    except Exception:
+        # no such check, or the modules under /repo do not even import (syntax error, missing name):
+        # that is a harness error (exit 2), never a verdict about the property
         traceback.print_exc()
-        print('no check for %s' % prop, file=sys.stderr)
+        print('HARNESS-ERROR property=%s the check could not be loaded' % prop, file=sys.stderr)
         sys.exit(2)
     try:
         rc = mod.run(a.tier)
